@@ -29,7 +29,6 @@ func VerifMaxPoints() int64  { return maxPoints }
 func VerifMonthStep() int64  { return _1M }
 func VerifOutOfRangeErr() error { return errQueryOutOfRange }
 
-func VerifMathDiv(a, b int64) int64 { return mathDiv(a, b) }
 func VerifRoundTime(t, step, utcOffset int64) int64 { return roundTime(t, step, utcOffset) }
 func VerifStartOfLOD(start, step int64, loc *time.Location, utcOffset int64) int64 {
 	return startOfLOD(start, step, loc, utcOffset)
